@@ -229,6 +229,10 @@ def report():
         status = r["suite"]
         if status == "survived":
             status = "killed-by-" + c["killed_by"] if c.get("killed_by") else ("not-run" if not c else "survived-all")
+        elif status == "flaky" and c:
+            status = "suite-inconclusive/" + ("killed-by-" + c["killed_by"] if c.get("killed_by") else "survived-all")
+        elif status == "flaky":
+            status = "suite-inconclusive/checks-not-run"
         rows.append(dict(id=r["id"], file=r["file"], line=r["line"], op=r["op"], desc=r["desc"], status=status, message=c.get("message", "")))
     with open(os.path.join(ROOT, "mutation", "results.jsonl"), "w") as fh:
         for r in rows:
@@ -236,7 +240,7 @@ def report():
     n = len(rows)
     cnt = {}
     for r in rows:
-        k = r["status"] if not r["status"].startswith("killed-by-") else "killed-by-a-check"
+        k = re.sub(r"killed-by-C\d\d", "killed-by-a-check", r["status"])
         cnt[k] = cnt.get(k, 0) + 1
     print(json.dumps(cnt, indent=1), n)
 
